@@ -91,8 +91,13 @@ const c18AMax = int64(1<<31 - 1)
 
 // c18AEv is one environment event.
 type c18AEv struct {
-	K string `json:"k"`           // "wu": WINDOW_UPDATE | "init": SETTINGS{INITIAL_WINDOW_SIZE=N} | "open": a further stream is opened and its sender started
-	S int    `json:"s,omitempty"` // wu: 0 = connection, i>0 = the i-th stream in order of opening
+	// "wu": WINDOW_UPDATE | "init": SETTINGS{INITIAL_WINDOW_SIZE=N} | "open": a further stream is opened and its sender started |
+	// "rst": the peer sends RST_STREAM(CANCEL) on stream S | "resp": (MOSN as client) the peer answers stream S with HEADERS(:status 200)+END_STREAM |
+	// "mreset": MOSN itself resets stream S (MStream.Reset / MClientStream.Reset: what the proxy does on a timeout or a downstream reset)
+	K string `json:"k"`
+	// wu: 0 = connection, i>0 = the i-th stream in order of opening IN WHATEVER STATE it is (open, finished, reset; i beyond the streams opened
+	// so far: a stream that has never been opened, id 2i-1), -1 = stream 2 (an even id: never opened by anybody). rst/resp/mreset: i>0, opened.
+	S int    `json:"s,omitempty"`
 	N uint32 `json:"n,omitempty"`
 }
 
@@ -102,9 +107,14 @@ func (e c18AEv) String() string {
 		if e.S == 0 {
 			return fmt.Sprintf("wu(conn,%d)", e.N)
 		}
+		if e.S < 0 {
+			return fmt.Sprintf("wu(even-id,%d)", e.N)
+		}
 		return fmt.Sprintf("wu(s%d,%d)", e.S, e.N)
 	case "init":
 		return fmt.Sprintf("init=%d", e.N)
+	case "rst", "resp", "mreset":
+		return fmt.Sprintf("%s(s%d)", e.K, e.S)
 	}
 	return e.K
 }
@@ -134,6 +144,9 @@ type c18AStream struct {
 	frames  int
 	ends    int // END_STREAM flags MOSN has written on the stream
 	started bool
+	peerRST bool // the peer has sent RST_STREAM on the stream
+	peerEnd bool // MOSN as client: the peer has sent HEADERS with END_STREAM (the response is complete)
+	mosnRST bool // MOSN has written RST_STREAM on the stream
 }
 
 type c18Acct struct {
@@ -151,6 +164,21 @@ type c18Acct struct {
 	flowErrWire  bool // GOAWAY or RST_STREAM with FLOW_CONTROL_ERROR written by MOSN
 	goAway       bool
 	unsolicited  int // SETTINGS ACKs without a pending SETTINGS
+	lateWU       bool // the peer has sent a WINDOW_UPDATE for a stream that is closed or has never been opened
+}
+
+// aborted: the stream has been reset by either side or (MOSN as client) answered completely by the peer before/while MOSN
+// sends the body. MOSN has forgotten the stream; what its sender does from then on (return an error, stop sending) is not
+// part of the statement. Only facts of the wire.
+func (a *c18Acct) aborted(s *c18AStream) bool {
+	return s.peerRST || s.mosnRST || (a.mosnIsClient && s.peerEnd)
+}
+
+// closed: aborted, or (MOSN as server; every request of this harness carries END_STREAM) MOSN has sent END_STREAM: RFC 7540
+// 5.1 "closed". A WINDOW_UPDATE the peer sends for such a stream (6.9: legal for a while after END_STREAM; always racing with
+// a reset) grants nothing to anybody: not to the stream (it sends no more), not to another stream, not to the connection.
+func (a *c18Acct) closed(s *c18AStream) bool {
+	return a.aborted(s) || (!a.mosnIsClient && s.ends > 0)
 }
 
 func newC18Acct(mosnIsClient bool) *c18Acct {
@@ -276,17 +304,27 @@ func (a *c18Acct) peerSends(b []byte) {
 			inc := int64(c18AU32(p) & 0x7fffffff)
 			a.log = append(a.log, fmt.Sprintf("p WU s=%d +%d", sid, inc))
 			if sid == 0 {
-				a.conn += inc
+				a.conn += inc // the ONLY thing that widens the connection window
 				return
 			}
-			if s := a.stream(sid); s != nil {
+			if s := a.stream(sid); s != nil && !a.closed(s) {
 				s.credit += inc
 				a.bump()
+			} else {
+				a.lateWU = true // closed or never opened: ignored (RFC 7540 6.9, 5.1), nobody's window grows
 			}
-		case 1: // HEADERS: a request of the peer opens a stream of a server connection
+		case 1: // HEADERS: a request of the peer opens a stream of a server connection; a response with END_STREAM ends a stream of a client connection
 			a.log = append(a.log, fmt.Sprintf("p HEADERS s=%d", sid))
 			if !a.mosnIsClient && a.stream(sid) == nil {
 				a.open(sid)
+			}
+			if s := a.stream(sid); a.mosnIsClient && s != nil && flags&1 != 0 {
+				s.peerEnd = true
+			}
+		case 3: // RST_STREAM
+			a.log = append(a.log, fmt.Sprintf("p RST s=%d", sid))
+			if s := a.stream(sid); s != nil {
+				s.peerRST = true
 			}
 		}
 	})
@@ -316,6 +354,9 @@ func (a *c18Acct) mosnWrites(b []byte) {
 			if len(p) == 4 && c18AU32(p) == 3 {
 				a.flowErrWire = true
 			}
+			if s := a.stream(sid); s != nil {
+				s.mosnRST = true
+			}
 		case 7:
 			a.goAway = true
 			if len(p) >= 8 && c18AU32(p[4:]) == 3 {
@@ -337,10 +378,14 @@ func (a *c18Acct) mosnWrites(b []byte) {
 }
 
 func (a *c18Acct) qual() string {
+	q := " [initial window never lowered]"
 	if a.lowered {
-		return " [after the peer lowered SETTINGS_INITIAL_WINDOW_SIZE]"
+		q = " [after the peer lowered SETTINGS_INITIAL_WINDOW_SIZE]"
 	}
-	return " [initial window never lowered]"
+	if a.lateWU {
+		q += " [after the peer sent a WINDOW_UPDATE for a closed or never-opened stream]"
+	}
+	return q
 }
 
 func (a *c18Acct) data(flags byte, sid uint32, p []byte) {
@@ -427,6 +472,17 @@ func c18AIsFlowErr(err error) bool {
 	return false
 }
 
+// c18AIsStreamErr: err is a stream error of stream sid (the stream is reset, the connection lives on).
+func c18AIsStreamErr(err error, sid uint32) bool {
+	switch e := err.(type) {
+	case StreamError:
+		return e.StreamID == sid
+	case *StreamError:
+		return e.StreamID == sid
+	}
+	return false
+}
+
 func c18ARun(c c18ACase, o *c18AObs) func() {
 	w := newC18Writer()
 	c18Must(w.fw.WriteSettings(xhttp2.Setting{ID: xhttp2.SettingInitialWindowSize, Val: c.Window}, xhttp2.Setting{ID: xhttp2.SettingMaxFrameSize, Val: c.MaxFrame}))
@@ -475,6 +531,7 @@ func c18ARun(c c18ACase, o *c18AObs) func() {
 			return rawDeliver(b)
 		}
 		senders := make([]func() error, n)
+		resets := make([]func(), n) // MOSN's own reset of the stream
 		opened := 0
 		openStream := func() error {
 			i := opened
@@ -489,6 +546,7 @@ func c18ARun(c c18ACase, o *c18AObs) func() {
 				ms.Response = &http.Response{StatusCode: 200, Header: http.Header{"Content-Type": []string{"application/octet-stream"}}}
 				ms.SendData = buffer.NewIoBufferBytes(bodies[i])
 				senders[i] = ms.SendResponse
+				resets[i] = ms.Reset
 			} else {
 				req, err := http.NewRequest("POST", "http://h.example/p", nil)
 				if err != nil {
@@ -501,6 +559,7 @@ func c18ARun(c c18ACase, o *c18AObs) func() {
 					return fmt.Errorf("request HEADERS %d: %v", i, err)
 				}
 				senders[i] = func() error { return ms.RoundTrip(ctx) } // second call: DATA + END_STREAM
+				resets[i] = ms.Reset
 			}
 			if len(a.streams) != i+1 {
 				return fmt.Errorf("stream %d: accountant saw %d streams open", i, len(a.streams))
@@ -528,12 +587,36 @@ func c18ARun(c c18ACase, o *c18AObs) func() {
 			case "wu":
 				var sid uint32
 				window, what, ended := a.conn, "connection", false
-				if e.S > 0 {
+				if e.S < 0 || e.S > len(a.streams) || (e.S > 0 && a.closed(a.streams[e.S-1])) {
+					// a stream that has never been opened (idle) or is closed: the frame must not move anybody's window. That is
+					// decided by the accountant on the DATA frames that follow (safety) and at the quiescences (liveness). The
+					// answer itself: nil and a stream error are accepted; a connection error for a CLOSED stream tears down every
+					// other stream of the connection because of a frame RFC 7540 6.9 / 5.1 tells the receiver to expect.
+					sid, what = 2, "never-opened"
 					if e.S > len(a.streams) {
-						o.setupErr = fmt.Sprintf("event %v: stream not open", e)
-						o.terminal = "harness"
-						return
+						sid = uint32(2*e.S - 1)
+					} else if e.S > 0 {
+						sid, what = a.streams[e.S-1].id, "closed"
 					}
+					fr := []byte{0, 0, 4, 8, 0, byte(sid >> 24), byte(sid >> 16), byte(sid >> 8), byte(sid), byte(e.N >> 24), byte(e.N >> 16), byte(e.N >> 8), byte(e.N)}
+					goAway := a.goAway
+					_, err := deliver(fr)
+					if c18AIsStreamErr(err, sid) && a.goAway == goAway {
+						err = nil
+					}
+					switch {
+					case err == nil && a.goAway == goAway:
+					case what == "closed":
+						o.violate("a WINDOW_UPDATE for a closed stream is answered with a connection error",
+							fmt.Sprintf("%v: stream %d (peer RST_STREAM %v, peer END_STREAM %v, MOSN RST_STREAM %v, MOSN END_STREAM %d), connection window %d: %v, GOAWAY written %v",
+								e, sid, a.streams[e.S-1].peerRST, a.streams[e.S-1].peerEnd, a.streams[e.S-1].mosnRST, a.streams[e.S-1].ends, a.conn, err, a.goAway))
+						o.terminal = "WINDOW_UPDATE on a closed stream answered with a connection error"
+					default:
+						o.terminal = "WINDOW_UPDATE on a never-opened stream answered with an error (RFC 7540 5.1 allows PROTOCOL_ERROR; not compared)"
+					}
+					return
+				}
+				if e.S > 0 {
 					s := a.streams[e.S-1]
 					sid, window, what, ended = s.id, a.exact(s), "stream", s.ends > 0
 					if !exact {
@@ -594,6 +677,26 @@ func c18ARun(c c18ACase, o *c18AObs) func() {
 					o.violate("a legal SETTINGS_INITIAL_WINDOW_SIZE change is rejected", fmt.Sprintf("%v: %v", e, err))
 					o.terminal = "legal frame rejected"
 				}
+			case "rst", "resp", "mreset":
+				if e.S < 1 || e.S > len(a.streams) || (e.K == "resp" && sc != nil) {
+					o.setupErr = fmt.Sprintf("event %v: stream not opened / event not defined for this side", e)
+					o.terminal = "harness"
+					return
+				}
+				sid := a.streams[e.S-1].id
+				if e.K == "mreset" {
+					resets[e.S-1]()
+					return
+				}
+				fr := []byte{0, 0, 4, 3, 0, byte(sid >> 24), byte(sid >> 16), byte(sid >> 8), byte(sid), 0, 0, 0, 8} // RST_STREAM(CANCEL)
+				if e.K == "resp" {
+					fr = []byte{0, 0, 1, 1, 0x5, byte(sid >> 24), byte(sid >> 16), byte(sid >> 8), byte(sid), 0x88} // HEADERS END_STREAM|END_HEADERS, ":status: 200" (static table)
+				}
+				goAway := a.goAway
+				if _, err := deliver(fr); (err != nil && !c18AIsStreamErr(err, sid)) || a.goAway != goAway {
+					// HandleFrame hands a received RST_STREAM to its caller as a StreamError of that stream; anything else ends the scenario
+					o.terminal = fmt.Sprintf("%s answered with a connection-level error %v (not compared)", e.K, err)
+				}
 			default:
 				o.setupErr = "unknown event " + e.K
 				o.terminal = "harness"
@@ -615,6 +718,9 @@ func c18ARun(c c18ACase, o *c18AObs) func() {
 				}
 				name := string(rune('A' + i))
 				left := int64(c.Bodies[i]) - int64(len(s.data))
+				if a.aborted(s) && (!o.done[i] || o.errs[i] != nil) {
+					continue // reset / answered early: whether and how its sender gives up is not part of the statement
+				}
 				if o.done[i] {
 					switch {
 					case o.errs[i] != nil:
@@ -688,7 +794,7 @@ func c18ARun(c c18ACase, o *c18AObs) func() {
 		// the closing rounds re-open every window far beyond the bodies: everything must have been delivered
 		if os.Getenv("C18A_NOFINAL") == "" && c.Layer != "overflow" {
 			for i, s := range a.streams {
-				if s.started && !o.done[i] {
+				if s.started && !o.done[i] && !a.aborted(s) {
 					o.violate("body not completely delivered although the windows were re-opened far beyond it"+a.qual(),
 						fmt.Sprintf("stream %c sent %d of %d, stream window %d, connection window %d", 'A'+i, len(s.data), c.Bodies[i], a.exact(s), a.conn))
 				}
@@ -722,7 +828,16 @@ func c18AExplore(p *vreport.Part, c c18ACase, replay bool) bool {
 		for i, s := range a.streams {
 			sent[i] = s.cum
 		}
-		p.Outcome(fmt.Sprintf("done=%v sent=%v lowered=%v end=%s", o.done, sent, a.lowered, o.terminal))
+		ab := ""
+		for i, s := range a.streams {
+			if a.aborted(s) {
+				ab += fmt.Sprintf(" aborted=%c(peerRST=%v,peerEnd=%v,mosnRST=%v,err=%v)", 'A'+i, s.peerRST, s.peerEnd, s.mosnRST, o.errs[i] != nil)
+			}
+		}
+		if a.lateWU {
+			ab += " lateWU"
+		}
+		p.Outcome(fmt.Sprintf("done=%v sent=%v lowered=%v end=%s%s", o.done, sent, a.lowered, o.terminal, ab))
 		if os.Getenv("C18A_TRACE") != "" {
 			fmt.Printf("EXEC %s pre=%v rounds=%v sched=%v: done=%v sent=%v end=%q bad=%d\n   %s\n", c.Side, c.Pre, c.Rounds, r.Choices, o.done, sent, o.terminal, len(a.bad)+len(o.bad), strings.Join(a.log, "; "))
 		}
